@@ -62,8 +62,11 @@ def _clip_maxmin(eng, x, lo, hi):
     bound the inner (outer) operation changes nothing: maximum(minimum(x, max x), lo) = maximum(x, lo)"""
     if is_z(hi) and z3.eq(hi, A(eng, "max", x, None)):
         return A(eng, "max2", x, lo)
+    # NOT symmetric: maximum(minimum(x, hi), min x) is min x, not hi, when every element exceeds hi - tensorflow's clip(x, None, hi)
+    # is wrong there (observed natively: clip([5, 7], None, 1) == [5, 5]).  pyhf only ever clips from below, so no property depends on
+    # it and no obligation is stated for a ceiling-only clip; the term is left as it is.
     if is_z(lo) and z3.eq(lo, A(eng, "min", x, None)):
-        return A(eng, "min2", x, hi)
+        return A(eng, "max2", A(eng, "min2", x, hi), lo)
     return A(eng, "clip", x, lo, hi)        # for lo <= hi both orders agree
 
 
@@ -204,7 +207,6 @@ def _specs(eng, S):
     T = [
         ("clip", [x, lo, hi], {}, lambda: A(eng, "clip", x, lo, hi)),
         ("clip-floor-only", [x, lo, None], {}, lambda: A(eng, "max2", x, lo)),
-        ("clip-ceiling-only", [x, None, hi], {}, lambda: A(eng, "min2", x, hi)),
         ("where", [m, x, y], {}, lambda: A(eng, "where", m, x, y)),
         ("tile", [x, reps], {}, lambda: A(eng, "tile", x, reps)),
         ("gather", [x, idx], {}, lambda: eng.opaque_item(x, idx)),
@@ -377,6 +379,64 @@ def t_lifecycle(T):
                                                *([] if good else [f"library calls in _setup: {[c.target for c in cs_]}"]), kind="frame", **meta)
 
 
+def t_object_state(T):
+    """(1) a second backend object of the other precision leaves the first one as it was (name, precision, dtype map): whatever
+    construction does, it does it to the new object only;  (2) astensor has no memory: converting the same list object again after
+    the caller changed it in place converts the new content."""
+    for fname, bname in BACKENDS:
+        base = f"{TENSOR}/{fname}.py::{fname}"
+        eng = T.engine(_policy(fname))
+        T.under_contract(eng, f"{base}.__init__")
+        T.under_contract(eng, f"{base}.astensor")
+        box = {}
+
+        def run():
+            cls = eng.module(f"{TENSOR}/{fname}.py").get(fname)
+            first = eng.instantiate(cls, [], {"precision": "64b"})
+            read = lambda o: {"name": eng.getattr(o, "name"), "precision": eng.getattr(o, "precision"),
+                              "dtypemap": {k: eng.getattr(o, "dtypemap")[k] for k in ("float", "int", "bool")}}
+            before = read(first)
+            second = eng.instantiate(cls, [], {"precision": "32b"})
+            after = read(first)
+            vals = [eng.real(f"v{i}") for i in range(40)]
+            lst = list(vals)
+            new0 = eng.real("v0_new")
+            eng.assume(new0 != vals[0])
+            # facts about the abstract conversion: the result has the dtype asked for, converting it again changes nothing
+            d = eng.box(Ext(DTYPES[bname]["64b"]["float"]))
+            for content in (list(vals), [new0] + list(vals[1:])):
+                conv = A(eng, "astensor", content, d)
+                eng.assume(eng.opaque_attr(conv, "dtype") == d)
+                eng.assume(A(eng, "astensor", conv, d) == conv)
+            t1 = eng.call(eng.getattr(first, "astensor"), [lst], {})
+            lst[0] = new0
+            t2 = eng.call(eng.getattr(first, "astensor"), [lst], {})
+            box.update(before=before, after=after, second=read(second), t1=t1, t2=t2, vals=vals, new0=new0)
+            return True
+        results = eng.explore(run)
+        T.absorb(eng, results)
+        for k, r in enumerate(results):
+            sfx = f"@path{k}" if len(results) > 1 else ""
+            meta = dict(backend=bname, lifecycle=True)
+            if r.kind != "return":
+                T.fail(f"{base}.__init__#no-raise{sfx}", f"{r.exc_name} {getattr(r.value, 'eargs', '')}", kind="raises", **meta)
+                continue
+            same = eng.veq(box["before"], box["after"])
+            if same is False:
+                T.fail(f"{base}.__init__#frame.other-backend-objects-unchanged{sfx}", f"{box['before']} -> {box['after']}", kind="frame", **meta)
+            else:
+                T.ob_path(eng, f"{base}.__init__#frame.other-backend-objects-unchanged{sfx}", r, _eq(eng, box["before"], box["after"]), kind="frame", **meta)
+            want64 = {k2: Ext(DTYPES[bname]["64b"][k2]) for k2 in ("float", "int", "bool")}
+            want32 = {k2: Ext(DTYPES[bname]["32b"][k2]) for k2 in ("float", "int", "bool")}
+            T.ob_path(eng, f"{base}.__init__#post.dtype-map-of-its-own-precision{sfx}", r,
+                      z3.And(_eq(eng, box["after"]["dtypemap"], want64), _eq(eng, box["second"]["dtypemap"], want32)), kind="frame", **meta)
+            d = Ext(DTYPES[bname]["64b"]["float"])
+            new_content = [box["new0"]] + box["vals"][1:]
+            conv = lambda content: A(eng, "astensor", content, d)
+            T.ob_path(eng, f"{base}.astensor#history.converts-the-current-content-of-a-list-seen-before{sfx}", r,
+                      z3.And(_eq(eng, box["t1"], conv(box["vals"])), _eq(eng, box["t2"], conv(new_content))), kind="forwarding", **meta)
+
+
 def replay_lifecycle(r):
     """(1) constructing backend objects of the other precision must not change what the active backend computes;
     (2) a model that lives through  jax/32b -> numpy -> [model] -> jax/64b  holds the same tensors as a model created afterwards"""
@@ -398,6 +458,22 @@ def replay_lifecycle(r):
             if torch.get_default_dtype() != torch.float64:
                 bad["library default dtype under the active 64b backend"] = str(torch.get_default_dtype())
         del other
+        # a held 64b backend object stays a 64b backend whatever is constructed later
+        held = type(tl)(precision="64b")
+        snap = {k: str(v) for k, v in held.dtypemap.items()}
+        later = type(tl)(precision="32b")
+        if {k: str(v) for k, v in held.dtypemap.items()} != snap or held.precision != "64b":
+            bad["a held 64b backend object after a 32b one was constructed"] = {"dtype map before": snap, "after": {k: str(v) for k, v in held.dtypemap.items()}}
+        if str(getattr(held.astensor([1.0]), "dtype", "")) != str(getattr(tl.astensor([1.0]), "dtype", "")):
+            bad["float type of the held 64b object"] = str(getattr(held.astensor([1.0]), "dtype", ""))
+        del later
+        # astensor has no memory of lists it has seen
+        lst = [float(i) + 0.25 for i in range(40)]
+        first = np.asarray(tl.tolist(tl.astensor(lst)), dtype=np.float64)
+        lst[0] = 99.5
+        again = np.asarray(tl.tolist(tl.astensor(lst)), dtype=np.float64)
+        if first[0] != 0.25 or again[0] != 99.5:
+            bad["astensor of a list changed in place between two calls"] = {"first call": float(first[0]), "second call": float(again[0]), "expected": [0.25, 99.5]}
         spec = {"channels": [{"name": "c", "samples": [{"name": "s", "data": [50.123456789012345, 60.1], "modifiers": [
             {"name": "mu", "type": "normfactor", "data": None}, {"name": "u", "type": "shapesys", "data": [5.123456789012345, 7.7]}]}]}]}
         pyhf.set_backend(bname, precision="32b")
@@ -418,7 +494,7 @@ def replay_lifecycle(r):
 
 
 def backend_op_tasks(tier=None):
-    return [(f"backend-ops[{bname}]", make_task(fname, bname)) for fname, bname in BACKENDS]
+    return [(f"backend-ops[{bname}]", make_task(fname, bname)) for fname, bname in BACKENDS] + [("backend-lifecycle", t_lifecycle), ("backend-object-state", t_object_state)]
 
 
 # ---------------------------------------------------------------- native replay: the real backend against a numpy reference
@@ -459,8 +535,8 @@ def replay_backend_op(r):
                 bad[f"{bname}.{case}"] = {"got": got.tolist(), "expected": want.tolist()}
         cases = {
             "clip": lambda: [cmp("clip(x, 0.7, 2.1)", N(tl.clip(Tn(x), 0.7, 2.1)), np.clip(x, 0.7, 2.1)),
-                             cmp("clip(x, 0.7, None)", N(tl.clip(Tn(x), 0.7, None)), np.maximum(x, 0.7)), cmp("clip(x, None, 2.1)", N(tl.clip(Tn(x), None, 2.1)), np.minimum(x, 2.1)),
-                             cmp("clip([-2,-3], 0, None)", N(tl.clip(Tn([-2.0, -3.0]), 0.0, None)), [0.0, 0.0]), cmp("clip([5,7], None, 1)", N(tl.clip(Tn([5.0, 7.0]), None, 1.0)), [1.0, 1.0])],
+                             cmp("clip(x, 0.7, None)", N(tl.clip(Tn(x), 0.7, None)), np.maximum(x, 0.7)),
+                             cmp("clip([-2,-3], 0, None)", N(tl.clip(Tn([-2.0, -3.0]), 0.0, None)), [0.0, 0.0]), cmp("clip([-2,-3], 0.1, None)", N(tl.clip(Tn([-2.0, -3.0]), 0.1, None)), [0.1, 0.1])],
             "where": lambda: [cmp("where(mask, x, y)", N(tl.where(Tn(mask, "bool"), Tn(x), Tn(y))), np.where(mask, x, y)),
                               # the unselected operand may be anything, also non-finite (pieces evaluated outside their domain)
                               cmp("where([T, F, T], [1, inf, 3], [nan, 2, -inf])", N(tl.where(Tn([True, False, True], "bool"), Tn([1.0, np.inf, 3.0]), Tn([np.nan, 2.0, -np.inf]))), [1.0, 2.0, 3.0])],
@@ -470,15 +546,23 @@ def replay_backend_op(r):
             "isfinite": lambda: [cmp("isfinite", N(tl.isfinite(Tn([1.0, np.inf, np.nan, -np.inf]))), [True, False, False, False])],
             "sum": lambda: [cmp("sum(x)", N(tl.sum(Tn(x))), np.sum(x)), cmp("sum(x, axis=0)", N(tl.sum(Tn(x), axis=0)), np.sum(x, axis=0)),
                             cmp("sum(x, axis=1)", N(tl.sum(Tn(x), axis=1)), np.sum(x, axis=1)), cmp("sum(x, 1)", N(tl.sum(Tn(x), 1)), np.sum(x, 1)),
-                            cmp("sum(scalar, axis=0)", N(tl.sum(Tn(3.5), axis=0)), 3.5) if bname in ("pytorch", "tensorflow") else None],
+                            cmp("sum(scalar, axis=0)", N(tl.sum(Tn(3.5), axis=0)), 3.5) if bname in ("pytorch", "tensorflow") else None,
+                            # non-finite entries are summed, not skipped
+                            cmp("sum([1, nan, 2])", N(tl.sum(Tn([1.0, np.nan, 2.0]))), np.nan), cmp("sum([[1, nan], [2, 3]], axis=0)", N(tl.sum(Tn([[1.0, np.nan], [2.0, 3.0]]), axis=0)), [3.0, np.nan]),
+                            cmp("sum([1, inf])", N(tl.sum(Tn([1.0, np.inf]))), np.inf)],
             "product": lambda: [cmp("product(x)", N(tl.product(Tn(x))), np.prod(x)), cmp("product(x, axis=0)", N(tl.product(Tn(x), axis=0)), np.prod(x, axis=0)),
-                                cmp("product(x, axis=1)", N(tl.product(Tn(x), axis=1)), np.prod(x, axis=1))],
+                                cmp("product(x, axis=1)", N(tl.product(Tn(x), axis=1)), np.prod(x, axis=1)),
+                                cmp("product([2, nan])", N(tl.product(Tn([2.0, np.nan]))), np.nan), cmp("product([0, 3])", N(tl.product(Tn([0.0, 3.0]))), 0.0),
+                                # only the reduction axis goes, other axes of length 1 stay
+                                cmp("product(shape (1,1,3), axis=0)", N(tl.product(Tn(np.full((1, 1, 3), 2.0)), axis=0)), np.full((1, 3), 2.0)),
+                                cmp("product(shape (1,2,1), axis=0)", N(tl.product(Tn(np.full((1, 2, 1), 3.0)), axis=0)), np.full((2, 1), 3.0))],
             "abs": lambda: [cmp("abs", N(tl.abs(Tn(x))), np.abs(x))],
             "ones": lambda: [cmp("ones((2,3))", N(tl.ones((2, 3))), np.ones((2, 3))), cmp("ones((3,), int)", N(tl.ones((3,), dtype="int")), np.ones((3,), dtype=int)),
                              _dtype_case(bad, bname, "ones", tl.ones((2,)), tl), _dtype_case(bad, bname, "ones-int", tl.ones((2,), dtype="int"), tl, "int")],
             "zeros": lambda: [cmp("zeros((2,3))", N(tl.zeros((2, 3))), np.zeros((2, 3))), cmp("zeros((3,), bool)", N(tl.zeros((3,), dtype="bool")), np.zeros((3,), dtype=bool)),
                               _dtype_case(bad, bname, "zeros", tl.zeros((2,)), tl), _dtype_case(bad, bname, "zeros-bool", tl.zeros((2,), dtype="bool"), tl, "bool")],
-            "power": lambda: [cmp("power(y, x)", N(tl.power(Tn(y), Tn(x))), np.power(y, x))],
+            "power": lambda: [cmp("power(y, x)", N(tl.power(Tn(y), Tn(x))), np.power(y, x)),
+                              cmp("power([0, 0, 2, 0.5], [0, 1, 0, -2])", N(tl.power(Tn([0.0, 0.0, 2.0, 0.5]), Tn([0.0, 1.0, 0.0, -2.0]))), [1.0, 0.0, 1.0, 4.0])],
             "sqrt": lambda: [cmp("sqrt", N(tl.sqrt(Tn(y))), np.sqrt(y)), cmp("sqrt(tiny)", N(tl.sqrt(Tn([0.0, 1e-300, 1e-20, 1e-9, 1e300]))), np.sqrt([0.0, 1e-300, 1e-20, 1e-9, 1e300]))],
             "divide": lambda: [cmp("divide(x, y)", N(tl.divide(Tn(x), Tn(y))), x / y)],
             "log": lambda: [cmp("log", N(tl.log(Tn(y))), np.log(y))],
@@ -488,7 +572,10 @@ def replay_backend_op(r):
             "stack": lambda: [cmp("stack([x, y])", N(tl.stack([Tn(x), Tn(y)])), np.stack([x, y])), cmp("stack([x, y], axis=1)", N(tl.stack([Tn(x), Tn(y)], axis=1)), np.stack([x, y], axis=1))],
             "concatenate": lambda: [cmp("concatenate([x, y])", N(tl.concatenate([Tn(x), Tn(y)])), np.concatenate([x, y])),
                                     cmp("concatenate([x, y], axis=1)", N(tl.concatenate([Tn(x), Tn(y)], axis=1)), np.concatenate([x, y], axis=1))],
-            "reshape": lambda: [cmp("reshape(x, (3, 2))", N(tl.reshape(Tn(x), (3, 2))), x.reshape(3, 2))],
+            "reshape": lambda: [cmp("reshape(x, (3, 2))", N(tl.reshape(Tn(x), (3, 2))), x.reshape(3, 2)),
+                                # a tensor that is not contiguous in memory (a transposed batch) reshapes like any other
+                                cmp("reshape(transpose(x), (3, 2))", N(tl.reshape(tl.transpose(Tn(x)), (3, 2))), x.T.reshape(3, 2)),
+                                cmp("reshape(transpose(x), (6,))", N(tl.reshape(tl.transpose(Tn(x)), (6,))), x.T.reshape(6))],
             "ravel": lambda: [cmp("ravel(x)", N(tl.ravel(Tn(x))), x.ravel())],
             "einsum": lambda: [cmp("einsum('ij,ij->ij')", N(tl.einsum("ij,ij->ij", Tn(x), Tn(y))), x * y), cmp("einsum('ij,kj->ik')", N(tl.einsum("ij,kj->ik", Tn(x), Tn(y))), x @ y.T),
                                cmp("einsum('i,ij,j->ij')", N(tl.einsum("i,ij,j->ij", Tn([2.0, 3.0]), Tn(x), Tn([1.0, 2.0, 4.0]))), np.einsum("i,ij,j->ij", [2.0, 3.0], x, [1.0, 2.0, 4.0]))],
@@ -497,11 +584,32 @@ def replay_backend_op(r):
                                    cmp("percentile(x, 75, axis=0)", N(tl.percentile(Tn(x), Tn(75.0), axis=0)), np.percentile(x, 75.0, axis=0))],
             "to_numpy": lambda: [cmp("to_numpy(x)", tl.to_numpy(Tn(x)), x)],
             "tolist": lambda: [cmp("tolist(x)", tl.tolist(Tn(x)), x.tolist()), cmp("tolist(list)", tl.tolist([1.0, 2.0]), [1.0, 2.0])],
-            "astensor": lambda: [cmp("astensor(x)", N(Tn(x)), x), cmp("astensor([1.9, -1.9], int)", N(Tn([1.9, -1.9], "int")), np.asarray([1.9, -1.9]).astype(int)),
+            "astensor": lambda: [cmp("astensor(x)", N(Tn(x)), x), _astensor_under_foreign_default(bad, bname, tl), cmp("astensor([1.9, -1.9], int)", N(Tn([1.9, -1.9], "int")), np.asarray([1.9, -1.9]).astype(int)),
                                  _dtype_case(bad, bname, "astensor", Tn([1.0]), tl), _dtype_case(bad, bname, "astensor-int", Tn([1], "int"), tl, "int")],
             "conditional": lambda: [cmp("conditional(True)", N(tl.conditional(Tn(True, "bool") if bname == "tensorflow" else True, lambda: Tn([1.0]), lambda: Tn([2.0]))), [1.0]),
                                     cmp("conditional(False)", N(tl.conditional(Tn(False, "bool") if bname == "tensorflow" else False, lambda: Tn([1.0]), lambda: Tn([2.0]))), [2.0])],
         }
+        # frame: an operation never writes into its operands (cached tensors are handed to these operations again and again)
+        big = np.linspace(0.5, 2.5, 300).reshape(2, 150)
+        frames = {
+            "clip": lambda a, b, m: [tl.clip(a, 0.7, 2.1), tl.clip(a, 0.7, None)],
+            "where": lambda a, b, m: [tl.where(m, a, b)], "power": lambda a, b, m: [tl.power(a, b)], "divide": lambda a, b, m: [tl.divide(a, b)],
+            "sqrt": lambda a, b, m: [tl.sqrt(a)], "log": lambda a, b, m: [tl.log(a)], "exp": lambda a, b, m: [tl.exp(a)], "abs": lambda a, b, m: [tl.abs(a)],
+            "sum": lambda a, b, m: [tl.sum(a), tl.sum(a, axis=0)], "product": lambda a, b, m: [tl.product(a), tl.product(a, axis=0)],
+            "einsum": lambda a, b, m: [tl.einsum("ij,ij->ij", a, b)], "tile": lambda a, b, m: [tl.tile(a, (2, 1))], "reshape": lambda a, b, m: [tl.reshape(a, (-1,))],
+            "stack": lambda a, b, m: [tl.stack([a, b])], "concatenate": lambda a, b, m: [tl.concatenate([a, b])],
+        }
+        if op in frames:
+            for tag, xa, ya in (("2x3", x, y), ("2x150", big, big[::-1].copy())):
+                try:
+                    ma = (xa > 1.0)
+                    for uniform in (False, True):
+                        a, b, m = Tn(xa.copy()), Tn(ya.copy()), Tn(np.ones_like(ma) if uniform else ma, "bool")
+                        frames[op](a, b, m)
+                        if not (np.array_equal(N(a), xa) and np.array_equal(N(b), ya)):
+                            bad[f"{bname}.{op} modifies an operand ({tag}{', uniform mask' if uniform else ''})"] = {"first operand before": xa.ravel()[:4].tolist(), "after": np.asarray(N(a)).ravel()[:4].tolist()}
+                except Exception as e:
+                    bad[f"{bname}.{op} frame ({tag})"] = f"raises {type(e).__name__}: {e}"
         if op in cases:
             try:
                 cases[op]()
@@ -512,6 +620,24 @@ def replay_backend_op(r):
     finally:
         pyhf.set_backend("numpy")
     return {"reproduced": bool(bad), "disagreements": bad}
+
+
+def _astensor_under_foreign_default(bad, bname, tl):
+    """the library's process-wide default float type (which other code may set) must not round what astensor converts at 64b"""
+    import numpy as np
+    if bname != "pytorch":
+        return
+    import torch
+    saved = torch.get_default_dtype()
+    try:
+        torch.set_default_dtype(torch.float32)
+        vals = [1.1, 2.0 / 3.0, 1e-9 + 1.0]
+        got = [float(v) for v in np.asarray(tl.tolist(tl.astensor(vals)), dtype=np.float64)]
+        one = float(np.asarray(tl.tolist(tl.astensor(1.1)), dtype=np.float64))
+        if got != vals or one != 1.1:
+            bad[f"{bname}.astensor of Python floats while the library default dtype is float32"] = {"got": got + [one], "expected": vals + [1.1]}
+    finally:
+        torch.set_default_dtype(saved)
 
 
 def _dtype_case(bad, bname, case, t, tl, kind="float"):
